@@ -1041,17 +1041,24 @@ func (w *h1World) members() []*h1Node {
 // canSettle: the convergence bound of the driven mode assumes that a digest of
 // all nodes and at least one (largest) entry fit a packet.
 func (w *h1World) canSettle(valmax int) bool {
-	var dg digest
-	for i := 0; i < 6; i++ {
-		dg = append(dg, digestEntry{ID: fmt.Sprintf("n%d", i), Addr: h1Addr(i), Version: 1 << 40, Left: true})
-	}
-	b, err := encodeDigest(digestHeader{NodeID: "n0", Addr: h1Addr(0), Request: true}, dg, 1<<20)
-	if err != nil || len(b) > w.maxPacket {
+	if !w.digestFits() {
 		return false
 	}
 	big := Entry{Key: "k1000", Value: strings.Repeat("L", valmax+12), Version: 1 << 40}
 	need := 2 + 2*headerSize(deltaHeader{NodeID: "n0", Addr: h1Addr(0), Entries: 1000}) + entrySize(big)
 	return need <= w.maxPacket
+}
+
+// digestFits: a digest listing every node fits one packet. When it does not the
+// sender shuffles and truncates it, so which unknown node a peer discovers in an
+// exchange is a coin flip and no deterministic sweep bound applies.
+func (w *h1World) digestFits() bool {
+	var dg digest
+	for i := 0; i < 6; i++ {
+		dg = append(dg, digestEntry{ID: fmt.Sprintf("n%d", i), Addr: h1Addr(i), Version: 1 << 40, Left: true})
+	}
+	b, err := encodeDigest(digestHeader{NodeID: "n0", Addr: h1Addr(0), Request: true}, dg, 1<<20)
+	return err == nil && len(b) <= w.maxPacket
 }
 
 // converged reports whether every live, non-left node's view of every live node
